@@ -229,6 +229,8 @@ def norm_ann(ann):
     """the engine's ``int`` stand-in (loader._IntMeta) is mapped back to the real ``int``"""
     if isinstance(ann, type) and ann.__dict__.get("_psvc_int", False):
         return int
+    if isinstance(ann, type) and ann.__dict__.get("_psvc_real", None) is not None:
+        return ann.__dict__["_psvc_real"]  # the engine's ``timedelta`` stand-in (timeabs)
     origin = get_origin(ann)
     if origin is None:
         return ann
